@@ -199,6 +199,36 @@ fn explore_tree(env: &Env, t: &Tree, mode: &Mode, inputs: &[&str], limit: Option
     Ok((runs, nodes))
 }
 
+
+fn limit_case(rep: &Report, env: &Env, limit_exec: &std::path::Path, maxsize: usize, n: usize, j: &str, needed: bool) -> i32 {
+    env.setup(&base_tree(false));
+    let mut c = std::process::Command::new(limit_exec);
+    c.arg(n.to_string()).arg(production_cli()).current_dir(env.base()).env_remove("TXTPP_FILE").stdout(std::process::Stdio::null()).stderr(std::process::Stdio::null());
+    if needed {
+        c.arg("-N");
+    }
+    c.args(["-q", "-j", j]);
+    let st = c.status().expect("limit-exec");
+    rep.tv(1);
+    rep.tr(1);
+    let code = st.code().unwrap_or(-1);
+    let expect_ok = n >= maxsize;
+    let mut complete = true;
+    for jx in 0..4 {
+        if std::fs::read(env.base().join(format!("{}.txt", FILES[jx]))).ok().as_deref() != Some(oracle(jx).as_bytes()) {
+            complete = false;
+        }
+    }
+    if (code == 0) != expect_ok || (code == 0 && !complete) || (code != 0 && code != 1) {
+        rep.violate(
+            if code == 0 { "false-success-under-write-limit" } else { "write-limit-exit-code" },
+            format!("write limit {n} bytes (largest generated file {maxsize}), -j{j}{}: exit {code}, all outputs complete: {complete}", if needed { " --needed" } else { "" }),
+            json!({"engine": "X", "kind": "rlimit", "n": n, "j": j, "needed": needed}),
+        );
+    }
+    code
+}
+
 pub fn run_c04(tier: &str) -> i32 {
     let rep = Report::new("C04", tier);
     let thorough = rep.thorough();
@@ -302,31 +332,7 @@ pub fn run_c04(tier: &str) -> i32 {
                 break;
             }
             let (n, j, needed) = ljobs[i];
-            env.setup(&base_tree(false));
-            let mut c = std::process::Command::new(&limit_exec);
-            c.arg(n.to_string()).arg(production_cli()).current_dir(env.base()).env_remove("TXTPP_FILE").stdout(std::process::Stdio::null()).stderr(std::process::Stdio::null());
-            if needed {
-                c.arg("-N");
-            }
-            c.args(["-q", "-j", j]);
-            let st = c.status().expect("limit-exec");
-            rep.tv(1);
-            rep.tr(1);
-            let code = st.code().unwrap_or(-1);
-            let expect_ok = n >= maxsize;
-            let mut complete = true;
-            for jx in 0..4 {
-                if std::fs::read(env.base().join(format!("{}.txt", FILES[jx]))).ok().as_deref() != Some(oracle(jx).as_bytes()) {
-                    complete = false;
-                }
-            }
-            if (code == 0) != expect_ok || (code == 0 && !complete) || (code != 0 && code != 1) {
-                rep.violate(
-                    if code == 0 { "false-success-under-write-limit" } else { "write-limit-exit-code" },
-                    format!("write limit {n} bytes (largest generated file {maxsize}), -j{j}{}: exit {code}, all outputs complete: {complete}", if needed { " --needed" } else { "" }),
-                    json!({"engine": "X", "kind": "rlimit", "n": n, "j": j, "needed": needed}),
-                );
-            }
+            let code = limit_case(rep, &env, &limit_exec, maxsize, n, j, needed);
             if n == 7 && j == "1" && !needed {
                 rep.sample(json!({"write_limit_bytes": n, "exit": code, "expected": "non-zero"}));
             }
@@ -338,8 +344,14 @@ pub fn run_c04(tier: &str) -> i32 {
 pub fn replay(v: &Value) -> bool {
     let env = Env { scratch: Scratch::new() };
     if v["kind"].as_str() == Some("rlimit") {
-        println!("replay: re-run `./check C04 quick` (write-limit cases are cheap and enumerated completely)");
-        return true;
+        let rep = Report::new("C04", "quick");
+        let sizes: Vec<usize> = (0..4).map(|j| oracle(j).len()).chain((0..4).map(|j| format!("{} body", FILES[j]).len())).collect();
+        let maxsize = *sizes.iter().max().unwrap();
+        let limit_exec = std::env::current_exe().unwrap().parent().unwrap().join("limit-exec");
+        let j = v["j"].as_str().unwrap_or("1").to_string();
+        let code = limit_case(&rep, &env, &limit_exec, maxsize, v["n"].as_u64().unwrap_or(0) as usize, &j, v["needed"].as_bool().unwrap_or(false));
+        println!("replay: write limit {} -j{}: exit {code}", v["n"], j);
+        return rep.n_violations() > 0;
     }
     let kind = v["kind"].as_str().unwrap_or("none");
     let pos = v["pos"].as_u64().unwrap_or(0) as usize;
